@@ -92,6 +92,17 @@ func c06State(p *core.Prog, r *core.Run, m *echModel, pre string) {
 		a := inspCalls[0].X.Args[1]
 		okInsp = a.Op == "slice" && a.Args[0].Op == "field" && a.Args[0].Obj == m.fConn["writeBuf"] && a.Args[1].Name == "_"
 	}
+	if okInsp {
+		// the record is inspected (and the counter bumped) before it is put on the wire:
+		// the peer's answer to a HelloRetryRequest may be read by the other direction at once
+		first := false
+		for _, w := range callSites(p, []*ssa.Function{m.write}, `\(net\.Conn\)\.Write`) {
+			if w.X.Args[1].Op == "slice" && core.Before(inspCalls[0].Instr, w.Instr) {
+				first = true
+			}
+		}
+		r.Check(pre+".M1", "inspector:before-forwarding", first, p.InstrPos(inspCalls[0].Instr), "a record is inspected before it is forwarded, so the retry counter is already set when the client can answer the HelloRetryRequest")
+	}
 	r.Check(pre+".M1", "inspector:caller", okInsp, p.Pos(m.inspect.Pos()), "the write inspector is called from exactly one place, Write's record loop, with the complete record writeBuf[:sz]")
 	c06HRR(p, r, pre+".M1")
 	r.Floor(pre+".M1", 5)
